@@ -1,4 +1,4 @@
-(* Proofs about models/TaskEngine.v, part 3 (C03): over every history WITHOUT user aborts the engine never panics,
+(* Proofs about models/TaskEngine.v, part 3 (C03): over every history in which user aborts hit unready changes only the engine never panics,
    the ready flag equals `every task is ready`, and running handlers belong to unready tasks. Stdlib only. *)
 From Coq Require Import List NArith ZArith Bool Arith Lia.
 Import ListNotations.
@@ -208,78 +208,74 @@ Qed.
 Lemma inv_ensure_pass : forall order s, inv s -> inv (ensure_pass s order).
 Proof. unfold ensure_pass; induction order; simpl; intros; auto using inv_ensure_one. Qed.
 
-(* ------------------------------------------------------------------ the abort inside the runner's error path:
-   the failing task t0 stays unready throughout, so the change never looks ready *)
-Definition mid (t0 : nat) (R : list nat) (n : nat) (s : state) : Prop :=
-  panicked s = false /\ cready s = false /\ length (tasks s) = n /\ t0 < n /\ unr (st s t0) = true /\
-  running s = R /\ (forall u, In u R -> unr (st s u) = true).
+(* ------------------------------------------------------------------ an abort (Abort / AbortLanes, repaired code):
+   the quiet rewrite leaves the flags alone and keeps unready-running statuses unready-running; readiness is then
+   evaluated once on the final statuses *)
+Definition qrel (s s' : state) : Prop :=
+  panicked s' = panicked s /\ cready s' = cready s /\ running s' = running s /\
+  length (tasks s') = length (tasks s) /\ (forall u, unr (st s u) = true -> unr (st s' u) = true).
 
-Lemma unr_set_status_abortish : forall s t nw u,
-  unr (st s u) = true -> (u = t -> unr nw = true) -> unr (st (set_status s t nw) u) = true.
-Proof.
-  intros s t nw u Hu Hn. destruct (st_set_status s t nw u) as [A|[A B]]; [rewrite A; assumption | rewrite B; auto].
-Qed.
+Lemma qrel_refl : forall s, qrel s s.
+Proof. intros; repeat split; auto. Qed.
 
 Lemma unr_abort_write : forall s t u, unr (st s u) = true -> unr (st (abort_write s t) u) = true.
 Proof.
   intros s t u Hu. unfold abort_write, eff_status.
+  assert (Q : forall nw, (u = t -> unr nw = true) -> unr (st (set_status_quiet s t nw) u) = true).
+  { intros nw Hn. destruct (st_set_status_quiet s t nw u) as [A|[A B]]; [rewrite A; assumption | rewrite B; auto]. }
   destruct (Nat.eq_dec u t) as [->|Hn].
   - unfold st in Hu. destruct (t_st (get s t)) eqn:Es; try discriminate Hu; simpl seqb; cbv iota;
       try (unfold st; rewrite Es; reflexivity).
-    apply unr_set_status_abortish; [unfold st; rewrite Es; reflexivity | reflexivity].
+    apply Q; reflexivity.
   - destruct (if seqb (t_st (get s t)) Wait then t_waited (get s t) else t_st (get s t)); try assumption;
-      apply unr_set_status_abortish; auto; intros; congruence.
+      apply Q; intros; congruence.
 Qed.
 
-Lemma mid_set_status : forall t0 R n s t nw, mid t0 R n s -> (t = t0 -> unr nw = true) ->
-  (forall u, In u R -> u = t -> unr nw = true) -> mid t0 R n (set_status s t nw).
+Lemma fields_set_status_quiet : forall s t nw,
+  panicked (set_status_quiet s t nw) = panicked s /\ cready (set_status_quiet s t nw) = cready s /\
+  running (set_status_quiet s t nw) = running s /\ length (tasks (set_status_quiet s t nw)) = length (tasks s).
 Proof.
-  intros t0 R n s t nw (Hp & Hc & Hl & Ht0 & Hu0 & HR & HRu) H0 HRn.
-  assert (U : forall u, unr (st s u) = true -> (u = t -> unr nw = true) -> unr (st (set_status s t nw) u) = true)
-    by (intros; apply unr_set_status_abortish; auto).
-  unfold mid. rewrite running_set_status.
-  assert (Rest : unr (st (set_status s t nw) t0) = true /\ (forall u, In u R -> unr (st (set_status s t nw) u) = true))
-    by (split; [apply U; auto | intros u Hu; apply U; [auto | intros E; apply (HRn u Hu E)]]).
-  destruct Rest as [Rt0 RR].
-  unfold set_status in *. rewrite Hp in *.
-  destruct (seqb nw Done && seqb (st s t) Abort); [repeat split; auto|].
-  unfold change_st in *.
-  destruct (seqb (st s t) nw); [repeat split; auto|].
-  set (s1 := with_tasks s (upd (tasks s) t (fun tk => set_st tk nw))) in *.
-  assert (L1 : length (tasks s1) = n) by (unfold s1; cbn [tasks with_tasks]; rewrite upd_length; assumption).
-  destruct (Bool.eqb (ready (st s t)) (ready nw)) eqn:Eb; [repeat split; auto|].
-  (* a readiness flip of t: t <> t0 (t0 stays unready across the write), so the others are not all ready *)
-  assert (Hne : t0 <> t).
-  { intros ->. specialize (H0 eq_refl). apply unr_unready in Hu0. apply unr_unready in H0.
-    rewrite Hu0, H0 in Eb. discriminate. }
-  assert (O : others_ready (tasks s1) t = false).
-  { apply others_ready_false with t0; [assumption | rewrite L1; assumption |].
-    apply unr_unready. unfold s1; cbn [tasks with_tasks]. rewrite stl_upd_other by congruence. exact Hu0. }
-  rewrite O in *. repeat split; auto.
+  intros; unfold set_status_quiet, with_tasks; des_if; cbn [panicked cready running tasks]; repeat split; auto.
+  apply upd_length.
 Qed.
 
-Lemma mid_abort_write : forall t0 R n s t, mid t0 R n s -> mid t0 R n (abort_write s t).
+Lemma fields_abort_write : forall s t,
+  panicked (abort_write s t) = panicked s /\ cready (abort_write s t) = cready s /\
+  running (abort_write s t) = running s /\ length (tasks (abort_write s t)) = length (tasks s).
+Proof. intros; unfold abort_write; destruct (eff_status (get s t)); auto using fields_set_status_quiet. Qed.
+
+Lemma qrel_abort_write : forall s s' t, qrel s s' -> qrel s (abort_write s' t).
 Proof.
-  intros t0 R n s t H. pose proof H as (Hp & Hc & Hl & Ht0 & Hu0 & HR & HRu).
-  unfold abort_write, eff_status.
-  assert (K : forall u, unr (st s u) = true -> u = t ->
-              match (if seqb (t_st (get s t)) Wait then t_waited (get s t) else t_st (get s t)) with
-              | Do | Done => False | _ => True end).
-  { intros u Hu ->. unfold st in Hu. destruct (t_st (get s t)); try discriminate Hu; simpl; exact I. }
-  destruct (if seqb (t_st (get s t)) Wait then t_waited (get s t) else t_st (get s t)) eqn:E; try assumption.
-  - apply mid_set_status; auto.
-    + intros ->. exfalso. apply (K t0 Hu0 eq_refl).
-    + intros u Hu ->. exfalso. apply (K t (HRu t Hu) eq_refl).
-  - apply mid_set_status; auto.
-  - apply mid_set_status; auto.
-    + intros ->. exfalso. apply (K t0 Hu0 eq_refl).
-    + intros u Hu ->. exfalso. apply (K t (HRu t Hu) eq_refl).
+  intros s s' t (A & B & C & D & E). destruct (fields_abort_write s' t) as (A' & B' & C' & D').
+  unfold qrel. rewrite A', B', C', D'. repeat split; auto. intros u Hu. apply unr_abort_write; auto.
 Qed.
 
-Lemma mid_abort_lanes : forall t0 R n d kill al seen s, mid t0 R n s -> mid t0 R n (abort_lanes d kill al seen s).
+Lemma qrel_oof : forall s s', qrel s s' -> qrel s (with_oof s' true).
+Proof. intros s s' (A & B & C & D & E). repeat split; auto. Qed.
+
+Lemma qrel_abort_lanes : forall d kill al seen s, qrel s (abort_lanes d kill al seen s).
+Proof. intros. apply (abort_lanes_P (qrel s)); auto using qrel_abort_write, qrel_oof, qrel_refl. Qed.
+
+Lemma qrel_abort_tasks : forall d wl al seen s, qrel s (abort_tasks d wl al seen s).
+Proof. intros. apply (abort_tasks_P (qrel s)); auto using qrel_abort_write, qrel_oof, qrel_refl. Qed.
+
+Lemma running_ready_detect : forall s, running (ready_detect s) = running s.
+Proof. intros; unfold ready_detect, with_cready, with_panicked; repeat des_if; reflexivity. Qed.
+
+(* an abort applied to a change that is not flagged ready keeps the invariant: no panic, and the change is flagged
+   ready afterwards exactly when every task is ready *)
+Lemma inv_detect : forall s s', inv s -> cready s = false -> qrel s s' -> inv (ready_detect s').
 Proof.
-  intros. apply (abort_lanes_P (mid t0 R n)); auto using mid_abort_write.
+  intros s s' [Hp Hc Hr] Hf (A & B & C & D & E).
+  assert (R' : forall t, In t (running s') -> unr (st s' t) = true) by (intros t Ht; rewrite C in Ht; auto).
+  unfold ready_detect. rewrite B, Hf.
+  destruct (all_ready (tasks s')) eqn:Ea.
+  - constructor; cbn [panicked cready running tasks with_cready]; auto. rewrite A; assumption.
+  - constructor; auto; [rewrite A; assumption | rewrite B, Hf, Ea; reflexivity].
 Qed.
+
+Lemma inv_abort_change : forall s, inv s -> cready s = false -> inv (abort_change s).
+Proof. intros s H Hf. unfold abort_change. eapply inv_detect; eauto using qrel_abort_tasks. Qed.
 
 Lemma inv_finish : forall s t o, inv s -> inv (finish s t o).
 Proof.
@@ -299,24 +295,19 @@ Proof.
   assert (Src : ready (st s0 t) = false) by (apply unr_unready; exact Ut).
   destruct o.
   - change (st s0 t) with (st s t). destruct (st s t); try discriminate Ut; apply inv_set_status; auto.
-  - (* error path *)
-    set (n := length (tasks s0)).
-    assert (Hlt : t < n).
+  - (* error path: AbortLanes on the task's lanes, then Error *)
+    assert (Hlt : t < length (tasks s0)).
     { apply in_range. change (stl (tasks s0) t) with (st s t). intros E. rewrite E in Ut. discriminate. }
-    assert (M0 : mid t (running s0) n s0).
-    { destruct I0 as [Hp0 Hc0 Hr0]. repeat split; auto.
-      rewrite Hc0. apply all_ready_false with t; [assumption | exact Src]. }
-    pose proof (mid_abort_lanes t (running s0) n (depth_fuel s0) (lanes_of (get s0 t)) [] [] s0 M0) as M1.
+    assert (Cf : cready s0 = false).
+    { destruct I0 as [_ Hc0 _]. rewrite Hc0. apply all_ready_false with t; [assumption | exact Src]. }
     unfold abort_lanes_top.
-    set (s1 := abort_lanes (depth_fuel s0) (lanes_of (get s0 t)) [] [] s0) in *.
-    destruct M1 as (Hp1 & Hc1 & Hl1 & _ & Hu1 & HR1 & HRu1).
-    assert (I1 : inv s1).
-    { constructor; auto.
-      - rewrite Hc1. symmetry. apply all_ready_false with t; [rewrite Hl1; assumption | apply unr_unready; exact Hu1].
-      - intros u Hu. rewrite HR1 in Hu. auto. }
+    set (s1 := abort_lanes (depth_fuel s0) (lanes_of (get s0 t)) [] [] s0).
+    pose proof (qrel_abort_lanes (depth_fuel s0) (lanes_of (get s0 t)) [] [] s0) as Q. fold s1 in Q.
+    pose proof (inv_detect s0 s1 I0 Cf Q) as I1.
+    destruct Q as (_ & _ & C & _ & E).
     apply inv_set_status; auto.
-    + apply unr_unready; exact Hu1.
-    + rewrite HR1. exact N0.
+    + rewrite st_ready_detect. apply unr_unready. apply E. exact Ut.
+    + rewrite running_ready_detect, C. exact N0.
   - destruct (seqb (st s0 t) Abort) eqn:Ea.
     + apply seqb_eq in Ea. apply inv_try_undo; assumption.
     + des_if; [assumption|]. apply inv_irrel; [reflexivity | assumption].
@@ -342,19 +333,39 @@ Qed.
 
 Definition no_uabort (e : event) : Prop := match e with UAbort => False | _ => True end.
 
-Lemma inv_step : forall s e, no_uabort e -> inv s -> inv (step s e).
+(* user aborts are issued on changes that are not (yet) reported ready, as daemon.abortChange and Prune do *)
+Fixpoint guarded (s : state) (es : list event) : Prop :=
+  match es with
+  | [] => True
+  | e :: r => (e = UAbort -> cready s = false) /\ guarded (step s e) r
+  end.
+
+Lemma inv_step : forall s e, (e = UAbort -> cready s = false) -> inv s -> inv (step s e).
 Proof.
-  intros s e He H. destruct e; simpl in *; try contradiction.
+  intros s e He H. destruct e; simpl in *.
   - apply inv_ensure_pass; assumption.
   - apply inv_finish; assumption.
+  - destruct (panicked s); [assumption|]. apply inv_abort_change; auto.
   - destruct H as [Hp Hc Hr]. constructor; auto.
   - des_if; [assumption|]. apply inv_resolve; assumption.
 Qed.
 
-Lemma inv_run_events : forall es s, Forall no_uabort es -> inv s -> inv (run_events s es).
+Lemma inv_run_events : forall es s, guarded s es -> inv s -> inv (run_events s es).
 Proof.
-  unfold run_events. induction es; simpl; intros s Hf H; [assumption|].
-  inversion Hf; subst. apply IHes; [assumption | apply inv_step; assumption].
+  unfold run_events. induction es; simpl; intros s Hg H; [assumption|].
+  destruct Hg as [Hg1 Hg2]. apply IHes; [assumption | apply inv_step; assumption].
+Qed.
+
+Lemma guarded_no_uabort : forall es s, Forall no_uabort es -> guarded s es.
+Proof.
+  induction es; simpl; intros s H; [exact I|]. inversion H; subst. split; [|auto].
+  intros ->. contradiction.
+Qed.
+
+Lemma guarded_app : forall es es' s, guarded s es -> guarded (run_events s es) es' -> guarded s (es ++ es').
+Proof.
+  unfold run_events. induction es; simpl; intros es' s H H'; [assumption|].
+  destruct H as [H1 H2]. split; auto.
 Qed.
 
 Lemma all_ready_init : forall g, g <> [] -> all_ready (init_tasks g) = false.
@@ -369,10 +380,11 @@ Proof.
   symmetry; apply all_ready_init; assumption.
 Qed.
 
-(* C03: in every history without user aborts the engine never panics (detectChangeReady's internal check is
-   unreachable), the change is flagged ready exactly when every task is ready, and only unready tasks run *)
-Theorem runner_ready_consistent : forall (g : list tdesc) (es : list event),
-  g <> [] -> Forall no_uabort es ->
+(* C03: in every history in which user aborts are issued on unready changes only, the engine never panics
+   (detectChangeReady's internal check and the one of deferReadyDetection are unreachable), the change is flagged
+   ready exactly when every task is ready, and only unready tasks have a running handler *)
+Theorem ready_consistent : forall (g : list tdesc) (es : list event),
+  g <> [] -> guarded (init_state g) es ->
   let s := run_events (init_state g) es in
   panicked s = false /\ cready s = all_ready (tasks s) /\ (forall t, In t (running s) -> ready (st s t) = false).
 Proof.
@@ -380,18 +392,31 @@ Proof.
   cbv zeta. repeat split; auto. intros t Ht. apply unr_unready. auto.
 Qed.
 
-(* ... and once the change is ready nothing moves any more: every later runner event leaves the task statuses alone *)
-Theorem ready_is_final : forall (g : list tdesc) (es es' : list event),
-  g <> [] -> Forall no_uabort es -> Forall no_uabort es' ->
+(* a user abort of an unready change, at any point of any such history: no panic, and afterwards the change is
+   flagged ready exactly when every task is ready (in particular it is never flagged ready while a task is unready) *)
+Theorem abort_unready_safe : forall (g : list tdesc) (es : list event),
+  g <> [] -> guarded (init_state g) es ->
   let s := run_events (init_state g) es in
-  cready s = true ->
+  cready s = false ->
+  panicked (step s UAbort) = false /\ cready (step s UAbort) = all_ready (tasks (step s UAbort)).
+Proof.
+  intros g es Hg Hf s Hc.
+  pose proof (inv_run_events es (init_state g) Hf (inv_init g Hg)) as H. fold s in H.
+  pose proof (inv_step s UAbort (fun _ => Hc) H) as K. destruct K as [A B C]. split; assumption.
+Qed.
+
+(* ... and once the change is ready nothing moves any more *)
+Theorem ready_is_final : forall (g : list tdesc) (es es' : list event),
+  g <> [] -> guarded (init_state g) es ->
+  let s := run_events (init_state g) es in
+  guarded s es' -> cready s = true ->
   let s' := run_events s es' in
   cready s' = true /\ all_ready (tasks s') = true /\ ready (change_status (tasks s')) = true /\ panicked s' = false.
 Proof.
-  intros g es es' Hg Hf Hf' s Hc s'.
+  intros g es es' Hg Hf s Hf' Hc s'.
   assert (E : s' = run_events (init_state g) (es ++ es')) by (unfold s', s, run_events; rewrite fold_left_app; reflexivity).
-  assert (Hall : Forall no_uabort (es ++ es')) by (apply Forall_app; split; assumption).
-  destruct (runner_ready_consistent g (es ++ es') Hg Hall) as (A & B & _). rewrite <- E in A, B.
+  assert (Hall : guarded (init_state g) (es ++ es')) by (apply guarded_app; assumption).
+  destruct (ready_consistent g (es ++ es') Hg Hall) as (A & B & _). rewrite <- E in A, B.
   assert (C : cready s' = true) by (apply cready_run_events; exact Hc).
   assert (D : all_ready (tasks s') = true) by (rewrite <- B; exact C).
   repeat split; auto.
